@@ -66,9 +66,30 @@ func newRefGraph(fe string, hasState bool) *refGraph {
 		nodes: map[string]*rnode{}, ctrl: map[[2]string]bool{}, data: map[[2]string]bool{}}
 }
 
-// assignable is false when the two types must-not be connected (all generated
-// types are concrete, so there is no "may" case).
-func assignable(out, in int) bool { return out == in }
+// assignable is false when the two types must-not be connected: identical types and a type that
+// implements the downstream interface must fit; an interface upstream whose dynamic value may be of
+// the downstream type may fit (checked at run time) - both are accepted when the connection is made.
+func assignable(out, in int) bool {
+	if out == in {
+		return true
+	}
+	implements := func(t, iface int) bool {
+		switch iface {
+		case tAny:
+			return true
+		case tFoo, tBar:
+			return t == tT
+		}
+		return false
+	}
+	if isIfaceT(in) && implements(out, in) {
+		return true // must
+	}
+	if isIfaceT(out) && implements(in, out) {
+		return true // may
+	}
+	return false
+}
 
 func (g *refGraph) outType(n string) int {
 	switch n {
@@ -158,6 +179,10 @@ func (g *refGraph) addChild(key string, sub *Sub, h hSpec) string {
 	for _, op := range sub.Ops {
 		c.ref.predict(op)
 	}
+	if sub.Pre {
+		// compiled standalone first: Compile does not change what was built, whatever its outcome
+		c.ref.predict(Op{K: "K"})
+	}
 	g.children = append(g.children, c)
 	sort.Slice(g.children, func(i, j int) bool { return g.children[i].key < g.children[j].key })
 	return ""
@@ -186,11 +211,15 @@ func mappingFits(o, i int, fromF, field string) bool {
 		return false
 	}
 	dst, ok := fieldType(i, field)
+	if !ok && field != "" && i == tAny {
+		// a field of an input declared as `any`: the input is put together as a map at request time
+		dst, ok = tAny, true
+	}
 	if !ok {
 		return false
 	}
 	// an `any` taken out of a map may hold the right type (checked at request time)
-	return src == dst || dst == tAny || src == tAny
+	return assignable(src, dst)
 }
 
 // resolve validates / infers the types along one data connection.
@@ -285,7 +314,15 @@ func (g *refGraph) addBranch(from string, cond int, ends []string, skipData bool
 	if from != "start" && !g.known(from) {
 		return g.fail("unknown-node")
 	}
-	if len(ends) == 1 {
+	// the targets of a branch are a set
+	distinct := map[string]bool{}
+	for _, e := range ends {
+		distinct[e] = true
+	}
+	if len(distinct) == 0 {
+		return g.fail("zero-target-branch")
+	}
+	if len(distinct) == 1 {
 		return g.fail("single-target-branch")
 	}
 	if from != "start" && g.nodes[from].pass {
@@ -329,19 +366,26 @@ func (g *refGraph) addBranch(from string, cond int, ends []string, skipData bool
 const keyedOnBothSides = "uninferred-passthrough/keyed-on-both-sides"
 
 type kOpt struct {
-	mode string // "", all, any
-	max  bool
+	mode   string // "", all, any
+	max    bool
+	before []string // WithInterruptBeforeNodes: the last such option wins
+	after  []string
 }
 
 // parseK: "+"-separated option names; name and store have no influence on well-formedness.
+// ib=<key>[,<key>] / ia=<key>[,<key>]: interrupt before / after these nodes.
 func parseK(opt string) kOpt {
 	var k kOpt
 	for _, o := range strings.Split(opt, "+") {
-		switch o {
-		case "all", "any":
+		switch {
+		case o == "all", o == "any":
 			k.mode = o // the last trigger-mode option wins
-		case "max":
+		case o == "max":
 			k.max = true
+		case strings.HasPrefix(o, "ib="):
+			k.before = strings.Split(o[3:], ",")
+		case strings.HasPrefix(o, "ia="):
+			k.after = strings.Split(o[3:], ",")
 		}
 	}
 	return k
@@ -470,6 +514,15 @@ func (g *refGraph) compile(opt string) string {
 	if dag {
 		if kind := g.cycleKind(); kind != "" {
 			return kind
+		}
+	}
+	// interrupt points are given by node key: a key that names no node of THIS graph (a typo, START,
+	// END, a node of a nested graph) is an unknown node key
+	for _, keys := range [][]string{k.before, k.after} {
+		for _, key := range keys {
+			if !g.known(key) {
+				return "unknown-interrupt-node"
+			}
 		}
 	}
 	if dag && k.max {
@@ -674,6 +727,8 @@ func (r *refChain) predict(op Op) (bool, string) {
 type refWFNode struct {
 	key    string
 	inputs []WIn
+	svs    []string // static values declared on the handle and not yet handed to the graph
+	lateSV bool     // a static value declared after a successful Compile: refused like a late input
 	// which parts of the node's input have been given a source
 	whole  bool
 	fields map[string]bool
@@ -689,7 +744,14 @@ type refWFBranch struct {
 type refWF struct {
 	g        *refGraph
 	handles  map[string]*refWFNode
+	order    []string // node keys in the order of their first declaration (End() included)
 	branches []refWFBranch
+}
+
+func (r *refWF) declared(key string) {
+	if _, ok := r.handles[key]; !ok {
+		r.order = append(r.order, key)
+	}
 }
 
 func (r *refWF) everCompiled() bool { return r.g.compiled }
@@ -702,6 +764,7 @@ func (r *refWF) predict(op Op) (bool, string) {
 		case op.Key == "end" && op.Typ == "":
 			h = r.handles["end"]
 			if h == nil {
+				r.declared("end")
 				h = &refWFNode{key: "end", fields: map[string]bool{}}
 				r.handles["end"] = h
 			}
@@ -720,10 +783,18 @@ func (r *refWF) predict(op Op) (bool, string) {
 			} else {
 				_ = r.g.addNode(op.Key, op.Typ == "P", in, out, parseH(op.H))
 			}
+			r.declared(op.Key)
 			h = &refWFNode{key: op.Key, fields: map[string]bool{}}
 			r.handles[op.Key] = h
 		}
 		h.inputs = append(h.inputs, op.In...)
+		if op.SV != "" {
+			if r.g.compiled {
+				h.lateSV = true
+			} else {
+				h.svs = append(h.svs, op.SV)
+			}
+		}
 		return true, ""
 	case "WB":
 		r.branches = append(r.branches, refWFBranch{from: op.From, ends: append([]string(nil), op.Ends...), cond: condType(op.Cond)})
@@ -742,19 +813,22 @@ func (r *refWF) predict(op Op) (bool, string) {
 		if r.g.buildErr {
 			return false, "sticky"
 		}
+		// a declared branch is handed to the graph once
 		for _, b := range r.branches {
 			_ = r.g.addBranch(b.from, b.cond, b.ends, true)
 		}
-		keys := make([]string, 0, len(r.handles))
-		for k := range r.handles {
-			keys = append(keys, k)
-		}
-		sort.Strings(keys)
+		r.branches = nil
+		// The declared inputs are replayed node by node in the order in which the nodes were declared
+		// (a pass-through node takes its type from the first typed neighbour it is connected to, so the
+		// order matters once interface types are involved).
 		// A declaration that fails stays queued on its handle together with what the handle has
 		// recorded so far, so it fails again at the next Compile (until the handle is replaced by
 		// declaring the node again).
-		for _, k := range keys {
+		for _, k := range r.order {
 			h := r.handles[k]
+			if h.lateSV {
+				return false, "compiled"
+			}
 			for _, in := range h.inputs {
 				if in.Mode != "dep" {
 					if h.whole {
@@ -779,6 +853,39 @@ func (r *refWF) predict(op Op) (bool, string) {
 				}
 			}
 			h.inputs = nil
+		}
+		// static values: checked against the node's input type, and they take part in the "one source per
+		// part of the input" rule like mapped inputs; handed to the graph once
+		for _, k := range r.order {
+			h := r.handles[k]
+			if len(h.svs) == 0 {
+				continue
+			}
+			t := tStr // END
+			if k != "end" {
+				if !r.g.known(k) {
+					continue
+				}
+				t = r.g.inType(k)
+			}
+			for _, f := range h.svs {
+				switch {
+				case t == tNone, t == tMap, t == tAny:
+				case t == tIn && (f == "X" || f == "Y"):
+				default:
+					return false, "static-value-invalid"
+				}
+			}
+			for _, f := range h.svs {
+				if h.whole || h.fields[f] {
+					return false, "input-declaration-conflict"
+				}
+			}
+			for _, f := range h.svs {
+				h.fields[f] = true
+				h.any = true
+			}
+			h.svs = nil
 		}
 		return false, r.g.compile(op.Opt)
 	}
